@@ -206,11 +206,28 @@ def processPartialSteps : List Gen.BeaconNode.Step := [
   .call "h.chain.NewValidPartial(ctx,addr,p)",
   .exit "return new(proto.Empty),nil"]
 
-/-- `broadcastNextPartial(current, upon = chain.Last)`: the node's own partial goes straight to the aggregator -/
-def ownPartial (c : Crypto) (s : Node) (cur : Nat) : Partial :=
+/-- `broadcastNextPartial(current, upon = chain.Last)`: the node's own partial goes straight to the aggregator. When the
+stored head is already ahead of the tick's round nothing is signed, queued or broadcast. -/
+def ownPartial (c : Crypto) (s : Node) (cur : Nat) : Option Partial :=
   let upon := s.last
+  if upon.round > cur then none else
   let rp : Nat × Bytes := if cur = upon.round then (cur, upon.prev) else (upon.round + 1, upon.sig)
-  ⟨rp.1, rp.2, c.signPartial s.group.poly (digest c s.chained rp.1 rp.2)⟩
+  some ⟨rp.1, rp.2, c.signPartial s.group.poly (digest c s.chained rp.1 rp.2)⟩
+
+def broadcastNextPartialSteps : List Gen.BeaconNode.Step := [
+  .guard "upon.Round>current.round" [.exit "return "],
+  .bind "previousSig:=upon.Signature",
+  .bind "round:=upon.Round+1",
+  .bind "beaconID:=common.GetCanonicalBeaconID(h.conf.Group.ID)",
+  .branch "current.round==upon.Round" [.bind "previousSig=upon.PreviousSig", .bind "round=current.round"] [],
+  .bind "msg:=h.crypto.DigestBeacon(&common.Beacon{Round:round,PreviousSig:previousSig})",
+  .bind "currSig,err:=h.crypto.SignPartial(msg)",
+  .guard "err!=nil" [.exit "return "],
+  .bind "metadata:=proto.NewMetadata(h.version.ToProto())",
+  .bind "metadata.BeaconID=beaconID",
+  .bind "packet:=&proto.PartialBeaconPacket{Round:round,PreviousSignature:previousSig,PartialSig:currSig,Metadata:metadata}",
+  .call "h.chain.NewValidPartial(ctx,h.addr,packet)",
+  .loop "range h.crypto.GetGroup().Nodes" [.ctxCheck, .bind "idt:=id.Identity", .guard "h.addr==id.Address()" [.exit "continue"], .call "go func{…}(*idt)"]]
 
 /-! ### the aggregator: `runAggregator`, `tryAppend` -/
 
@@ -341,16 +358,21 @@ structure SyncPkt where
   b : Beacon
   deriving Repr
 
-/-- processes packets until the stream is closed (→ false) or a return is reached -/
-def tryNode (c : Crypto) (s : Node) (upTo : Nat) : List SyncPkt → Node × Bool
+/-- processes packets until the stream is closed (→ false) or a return is reached; `last` is tryNode's local view of
+the head: the store's head when the call starts, then the beacon it stored last -/
+def tryNodeLoop (c : Crypto) (s : Node) (upTo : Nat) (last : Beacon) : List SyncPkt → Node × Bool
   | [] => (s, false)                                   -- channel closed
   | pk :: rest =>
     if !pk.idOk then (s, false) else
     if !verifyBeacon c s.chained s.chainKey pk.b then (s, false) else
+    -- sync hands beacons over in chain order
+    if pk.b.round ≠ last.round + 1 then (s, false) else
     match Node.put c s .sync pk.b with
-    | (s', .ok) => if pk.b.round = upTo then (s', true) else tryNode c s' upTo rest
+    | (s', .ok) => if pk.b.round = upTo then (s', true) else tryNodeLoop c s' upTo pk.b rest
     | (s', .already) => (s', decide (pk.b.round = upTo))
     | (s', _) => (s', false)
+
+def tryNode (c : Crypto) (s : Node) (upTo : Nat) (pkts : List SyncPkt) : Node × Bool := tryNodeLoop c s upTo s.last pkts
 
 def tryNodePacketSteps : List Gen.BeaconNode.Step := [
   .guard "!ok" [.exit "return false"],
@@ -359,6 +381,7 @@ def tryNodePacketSteps : List Gen.BeaconNode.Step := [
   .branch "idx:=beaconPacket.GetRound();target<idx||target-idx<commonutils.LogsToSkip||idx%commonutils.LogsToSkip==0" [.bind "cnode=dcontext.SetSkipLogs(cnode,false)"] [.bind "cnode=dcontext.SetSkipLogs(cnode,true)"],
   .bind "beacon:=protoToBeacon(beaconPacket)",
   .guard "err:=s.scheme.VerifyBeacon(beacon,s.info.PublicKey);err!=nil" [.exit "return false"],
+  .branch "isResync" [.guard "beacon.Round<from||beacon.Round>upTo" [.exit "return false"]] [.guard "beacon.Round!=last.Round+1" [.exit "return false"]],
   .branch "isResync" [.guard "err:=s.insecureStore.Put(cnode,beacon);err!=nil" [.exit "return false"]] [.guard "err:=s.store.Put(cnode,beacon);err!=nil" [.guard "errors.Is(err,ErrBeaconAlreadyStored)" [.exit "return beacon.Round==upTo"], .exit "return false"]],
   .call "s.newSyncedBeacon<-beacon",
   .bind "last=beacon",
@@ -461,7 +484,9 @@ def Node.step (c : Crypto) (s : Node) : Ev → Node
   | .tick next => { s with nextRound := next }
   | .setInfo g => { s with group := g, seen := s.seen ++ [g] }
   | .deliver p => (processPartial c s p).1
-  | .own cur => { s with newPartials := s.newPartials ++ [ownPartial c s cur] }
+  | .own cur => match ownPartial c s cur with
+    | some p => { s with newPartials := s.newPartials ++ [p] }
+    | none => s
   | .aggPartial => (aggPartial c s).1
   | .aggStored => aggStored s
   | .swapStored => match s.storedQ with
